@@ -29,7 +29,7 @@ theorem fall_state {N} {lr : LR} (hg : Good N lr) {v : View} (hv : VOk lr.v v) {
   exact ⟨_, rfl, g', by rw [r', hr]⟩
 
 theorem getElem?_append_len (a b : VBytes) : (a ++ b)[a.length]? = b.head? := by
-  simp [List.head?_eq_getElem?]
+  rw [List.head?_eq_getElem?, List.getElem?_append_right (Nat.le_refl _), Nat.sub_self]
 
 /-! ### `skip_whitespace` -/
 
@@ -58,7 +58,7 @@ theorem word_ok {N} (pat bl rest : VBytes) (hne : pat ≠ []) (hbl : AllBlank bl
   obtain ⟨v2, p2⟩ := v1.demand pat.length
   obtain ⟨v3, p3⟩ := v2.demand (pat.length + bl.length)
   have hlen : 0 < pat.length := List.length_pos_iff.mpr hne
-  have hoff : (pat.length != 0) = true := by simp; omega
+  have hoff : (pat.length != 0) = true := by rw [bne_iff_ne]; omega
   have hget : ((lr.v.demand (pat.length - 1)).rest)[pat.length]? = (bl ++ rest).head? := by
     rw [v1.rest, hr']; exact getElem?_append_len _ _
   have hdrop : ((lr.v.demand (pat.length - 1)).demand pat.length).rest.drop pat.length = bl ++ rest := by
@@ -164,8 +164,8 @@ theorem newline_ok {N} (e bl rest : VBytes) (he : IsEol e) (hbl : AllBlank bl) (
   obtain ⟨v1, hv1e, v1ok, p1⟩ := newline_eq hg.vok he hr
   obtain ⟨v2, p2⟩ := v1ok.demand (e.length + bl.length)
   have hpos := he.pos
-  have hoff : (e.length != 0) = true := by simp; omega
-  have hd : v1.rest.drop e.length = bl ++ rest := by rw [v1ok.rest, hr]; simp
+  have hoff : (e.length != 0) = true := by rw [bne_iff_ne]; omega
+  have hd : v1.rest.drop e.length = bl ++ rest := by rw [v1ok.rest, hr, List.drop_left' rfl]
   have hlen : lr.v.rest.length = e.length + bl.length + rest.length := by rw [hr]; simp; omega
   have hl := hg.len
   have hbd := hg.bound
@@ -195,7 +195,7 @@ theorem interactiveNewline_ok {N} (e rest : VBytes) (he : IsEol e) :
   intro lr hg hr
   obtain ⟨v1, hv1e, v1ok, p1⟩ := newline_eq hg.vok he hr
   have hpos := he.pos
-  have hoff : (e.length != 0) = true := by simp; omega
+  have hoff : (e.length != 0) = true := by rw [bne_iff_ne]; omega
   have hlen : lr.v.rest.length = e.length + rest.length := by rw [hr]; simp
   have hl := hg.len
   have hbd := hg.bound
@@ -260,7 +260,7 @@ theorem numberTail_ok {N} (num bl rest : VBytes) (x : Int) (hne : num ≠ []) (h
   obtain ⟨v2, p2⟩ := hg.vok.demand num.length
   obtain ⟨v3, p3⟩ := v2.demand (num.length + bl.length)
   have hlen : 0 < num.length := List.length_pos_iff.mpr hne
-  have hoff : (num.length != 0) = true := by simp; omega
+  have hoff : (num.length != 0) = true := by rw [bne_iff_ne]; omega
   have hget : lr.v.rest[num.length]? = (bl ++ rest).head? := by
     rw [hr]; exact getElem?_append_len _ _
   have hdrop : (lr.v.demand num.length).rest.drop num.length = bl ++ rest := by
@@ -382,13 +382,13 @@ theorem bracedUint_ok {N} (t : IntTy) (hb : 1 ≤ t.bits) (ds bl rest : VBytes) 
   obtain ⟨v3, p3⟩ := v2.demand (1 + ds.length)
   obtain ⟨v4, p4⟩ := v3.demand (1 + ds.length + 1 + bl.length)
   have hlen : 0 < ds.length := List.length_pos_iff.mpr hne
-  have hoff : (1 + ds.length != 1) = true := by simp; omega
+  have hoff : (1 + ds.length != 1) = true := by rw [bne_iff_ne]; omega
   have hget0 : lr.v.rest[0]? = some 123 := by rw [hr]; rfl
   have hget : (Text.asciiDigits t (lr.v.demand 0) 1).2.rest[1 + ds.length]? = some 125 := by
     rw [v2.rest, hr]
     have : (123 :: ds ++ 125 :: (bl ++ rest)) = (123 :: ds) ++ 125 :: (bl ++ rest) := by simp
     rw [this]
-    have hl : 1 + ds.length = (123 :: ds).length := by simp; omega
+    have hl : 1 + ds.length = (123 :: ds).length := by rw [bne_iff_ne]; omega
     rw [hl, getElem?_append_len]; rfl
   have hdrop : ((Text.asciiDigits t (lr.v.demand 0) 1).2.demand (1 + ds.length)).rest.drop
       (1 + ds.length + 1) = bl ++ rest := by
